@@ -117,6 +117,11 @@ Definition prog_ok (a b : list lexeme) : bool :=
        | ParseOk ta' => list_eqb ptok_eqb (print ta') (print ta)
        | _ => false
        end
+    (* with every operator expression in parentheses it is still the same tree *)
+    && match parse (print (pa_b ta)) with
+       | ParseOk tp => list_eqb ptok_eqb (print tp) (print ta)
+       | _ => false
+       end
   | _, _ => false
   end.
 
